@@ -67,13 +67,8 @@ def CEvent.added : CEvent → List Id
 
 /-- `for item in …: add_or_remove_notifiers(object=item, graph=graph, …, remove=rm)`;
 the first exception propagates. -/
-def walkAll (h : Heap) (k : HKey) (rm : Bool) (g : Graph) : List Id → Hooks → Res
-  | [], H => ⟨H, none⟩
-  | y :: ys, H =>
-    let r := addRemove h k rm true g (some y) H
-    match r.err with
-    | some e => ⟨r.H, some e⟩
-    | none => walkAll h k rm g ys r.H
+def walkAll (h : Heap) (k : HKey) (rm : Bool) (g : Graph) (ys : List Id) (H : Hooks) : Res :=
+  foldRes (addRemove h k rm true g) (ys.map some) H
 
 /-- `match_func(name, trait)` of the `TraitAddedObserver` built by the root
 observer of `g` (_named_trait_observer.py:209, _filtered_trait_observer.py:173). -/
